@@ -117,3 +117,48 @@ inline void co_awaiter<promise_type>::force_sync() noexcept  {""", """    sync_a
 
 template<typename promise_type>
 inline void co_awaiter<promise_type>::force_sync() noexcept  {""", 'sync blocks on the refused edge')
+m('M21', 'C07', 'C07.try-lock', 'mutex.h',
+  """        awaiter *n = nullptr;
+        bool ok = _requests.compare_exchange_strong(n, doorman());""", """        bool ok = _requests.load() == nullptr;
+        if (ok) _requests.store(doorman());""", 'try-lock by load+store')
+m('M22', 'C07', 'C07.build-queue', 'mutex.h',
+  "        awaiter *req = _requests.exchange(doorman(), std::memory_order_acquire);", "        awaiter *req = _requests.exchange(nullptr, std::memory_order_acquire);", 'build_queue installs null')
+m('M23', 'C07', 'C07.unlock-once', 'mutex.h',
+  """        _queue = _queue->_next;
+        //clear _next ptr to avoid leaking invalid pointer to next code
+        first->_next = nullptr;
+        //resume awaiter - it has ownership now
+        fn(first);""", """        //resume awaiter - it has ownership now
+        fn(first);
+        _queue = first->_next;""", 'hand over before unlinking')
+m('M23b', 'C07', 'C07.unlock-once', 'mutex.h',
+  """            build_queue(doorman());
+            //the queue is now not-empty""", """            //the queue is now not-empty
+            return;""", 'failed CAS returns without hand-over')
+m('M23c', 'C07', 'C07.subscribe', 'mutex.h',
+  """            build_queue(aw);
+            //suspend is not needed, we already own the mutex
+            return false;""", """            //suspend is not needed, we already own the mutex
+            return false;""", 'free path does not install the doorman')
+m('M23d', 'C07', 'C07.release-once', 'mutex.h',
+  "            mutex *mx = _ptr.release();", "            mutex *mx = _ptr.get();", 'release keeps the pointer')
+m('M23e', 'C07', 'C07.build-queue', 'mutex.h',
+  """            auto x = req;
+            req = req->_next;
+            x->_next = _queue;
+            _queue= x;""", """            auto x = req;
+            x->_next = _queue;
+            _queue= x;
+            req = req->_next;""", 'link overwritten before read')
+m('M23f', 'C07', 'C07.types', 'mutex.h',
+  "    mutex(const mutex &) = delete;", "    mutex(const mutex &) {}", 'copyable mutex')
+m('M24', 'C08', 'C08.try-lock', 'mutex.h',
+  "        return ready()?ownership(this):ownership(nullptr);", "        return ownership(lock());", 'try_lock blocks')
+m('M24b', 'C08', 'C08.refill-only-when-empty', 'mutex.h',
+  "        if (!_queue) [[likely]] {", "        {", 'refill non-empty FIFO')
+m('M24c', 'C08', 'C08.release-returns', 'mutex.h',
+  "                    ret << awt->resume();", "                    awt->resume();", 'release drops the resumption')
+m('M24d', 'C08', 'C08.fifo-structure', 'mutex.h',
+  """            x->_next = _queue;
+            _queue= x;""", """            x->_next = nullptr;
+            if (_queue) { auto t = _queue; while (t->_next) t = t->_next; t->_next = x; } else _queue = x;""", 'append at tail (LIFO service)')
